@@ -342,3 +342,58 @@ Example shallow_copy_breaks_owner :
                               (Wcopy, ChangeCollBasis); (Wcopy, Solve)] 1 s h in
   owner w = s /\ observable (owner w) (hp w) <> observable s h.
 Proof. cbn. split; [reflexivity|]. unfold observable, upd; cbn. congruence. Qed.
+
+(** * setBackground: store a copy of the caller's background, boost the copy *)
+Inductive frame := WallFrame | PlasmaFrame.
+(** a BoltzmannBackground object: a REFERENCE to its velocity array and the scalar
+    velocityWall (here: in which frame it is expressed) *)
+Record bgobj := mk_bg { bg_vel : nat; bg_vw : frame }.
+Definition fheap := nat -> frame.     (* frame the numbers stored in an array belong to *)
+Definition fupd (h : fheap) (l : nat) (f : frame) : fheap :=
+  fun l' => if Nat.eqb l' l then f else h l'.
+
+(** boostToPlasmaFrame on object o: either it rebinds the attribute to a new array
+    ([rebinds] = true, what `self.velocityProfile = boostVelocity(...)` does) or it
+    overwrites the array in place *)
+Definition boost (rebinds : bool) (fresh : nat) (o : bgobj) (h : fheap) : bgobj * fheap :=
+  if rebinds then (mk_bg fresh PlasmaFrame, fupd h fresh PlasmaFrame)
+  else (mk_bg (bg_vel o) PlasmaFrame, fupd h (bg_vel o) PlasmaFrame).
+
+(** caller object after `setBackground(caller)`; [target]: on which object the boost is called *)
+Definition set_background (k : copykind) (target : who) (rebinds : bool) (f1 f2 : nat)
+  (caller : bgobj) (h : fheap) : bgobj * bgobj * fheap :=
+  let '(stored, h1) := match k with
+                       | Deep => (mk_bg f1 (bg_vw caller), fupd h f1 (h (bg_vel caller)))
+                       | _ => (caller, h) end in
+  match target, k with
+  | Wowner, _ => let '(c', h2) := boost rebinds f2 caller h1 in
+                 (c', match k with Alias => c' | _ => stored end, h2)
+  | Wcopy, Alias => let '(c', h2) := boost rebinds f2 caller h1 in (c', c', h2)
+  | Wcopy, _ => let '(s', h2) := boost rebinds f2 stored h1 in (caller, s', h2)
+  end.
+
+Definition bg_observable (o : bgobj) (h : fheap) := (bg_vw o, h (bg_vel o)).
+Definition bg_safe (k : copykind) (target : who) (rebinds : bool) : bool :=
+  match target, k with
+  | Wcopy, Deep => true
+  | Wcopy, Shallow => rebinds
+  | _, _ => false
+  end.
+
+Theorem bg_safe_sound k target rebinds f1 f2 caller h :
+  bg_safe k target rebinds = true -> f1 <> bg_vel caller -> f2 <> bg_vel caller ->
+  let '(c', s', h') := set_background k target rebinds f1 f2 caller h in
+  bg_observable c' h' = bg_observable caller h /\
+  bg_observable s' h' = (PlasmaFrame, PlasmaFrame).
+Proof.
+  intros Hs H1 H2.
+  destruct target, k, rebinds; try discriminate; cbn;
+    unfold bg_observable, fupd; cbn; rewrite ?Nat.eqb_refl;
+    repeat match goal with |- context [Nat.eqb ?a ?b] =>
+      destruct (Nat.eqb_spec a b); try congruence end; split; reflexivity.
+Qed.
+
+Example alias_background_is_boosted_for_the_caller :
+  let '(c', _, h') := set_background Alias Wcopy true 1 2 (mk_bg 0 WallFrame) (fun _ => WallFrame) in
+  bg_observable c' h' <> bg_observable (mk_bg 0 WallFrame) (fun _ => WallFrame).
+Proof. cbn. unfold bg_observable; cbn. congruence. Qed.
